@@ -954,7 +954,15 @@ class Engine:
         if re.search(r"mem::take::<.*>$", nm) and len(args) == 1 and args[0][0] == "ref":
             loc = args[0][1]
             old_v = self.read_loc(path, loc)
-            return [(old_v, None, [(loc, ("app", "Default::default", ()))])]
+            dty = (t.get("dest") or {}).get("ty", "")
+            dflt = ("app", "Default::default", ())
+            if dty == "bool":
+                dflt = ("bool", False)
+            elif dty in ("usize", "u8", "u16", "u32", "u64", "u128", "isize", "i8", "i16", "i32", "i64", "i128"):
+                dflt = ("int", 0)
+            elif dty.startswith("std::option::Option<"):
+                dflt = ("adt", "std::option::Option", "None", ())
+            return [(old_v, None, [(loc, dflt)])]
         if re.search(r"Option::<.*>::(unwrap|expect|unwrap_unchecked)$", nm):
             v = self.deref_val(path, args[0])
             kv = self.known_variant(path, v)
